@@ -147,11 +147,13 @@ CHECKS = {
     "C07": {
         "quick": [
             {"pkg": "v2", "entries": ["VerifC07List", "VerifC07Obj", "VerifC07Set", "VerifC07Merge"], "params": {"N": 2}},
+            {"pkg": "v2", "entries": ["VerifC07Set"], "params": {"N": 1, "NESTED": 1}},
         ],
         "thorough": [
             {"pkg": "v2", "entries": ["VerifC07List"], "params": {"N": 3}},
             {"pkg": "v2", "entries": ["VerifC07Obj", "VerifC07Merge"], "params": {"N": 2, "INNER": 2}},
             {"pkg": "v2", "entries": ["VerifC07Set"], "params": {"N": 3}},
+            {"pkg": "v2", "entries": ["VerifC07Set"], "params": {"N": 1, "NESTED": 1}},
         ],
         "covers": ["c07.list.root", "c07.list.key", "c07.obj", "c07.set.set", "c07.set.multiset", "c07.merge"],
         "outside": "arrays longer than N; SetKeys hunks (covered for patch semantics in C08); FNV collisions",
@@ -194,11 +196,17 @@ CHECKS = {
     "C05": {
         "quick": [
             {"pkg": "v2", "entries": ["VerifC05Flat"], "params": {"N": 2}},
+            {"pkg": "v2", "entries": ["VerifC05Nest"], "params": {"N": 1, "INNER": 2}},
+            {"pkg": "v2", "entries": ["VerifC05Nest"], "params": {"N": 2, "INNER": 1}},
+            {"pkg": "v2", "entries": ["VerifC05Docs"], "params": {"OPTS": 19}},
         ],
         "thorough": [
             {"pkg": "v2", "entries": ["VerifC05Flat"], "params": {"N": 3}},
+            {"pkg": "v2", "entries": ["VerifC05Nest"], "params": {"N": 2, "INNER": 2}},
+            {"pkg": "v2", "entries": ["VerifC05Docs"], "params": {"OPTS": 0x77}},
         ],
-        "covers": ["c05.flat.none", "c05.flat.set", "c05.flat.multiset", "c05.flat.merge"],
+        "covers": ["c05.flat.none", "c05.flat.set", "c05.flat.multiset", "c05.flat.merge", "c05.nest.none", "c05.nest.set+merge", "c05.obj.none", "c05.void.none", "c05.keyed.setkeys"],
+        "outside": "arrays longer than N; Precision(eps) (listed finding precision-diff is checked separately in C04 for Equals only); the CLI exit status (C14); FNV collisions",
     },
     "C01": {
         "quick": [
@@ -206,6 +214,7 @@ CHECKS = {
             {"pkg": "v2", "entries": ["VerifC01Obj", "VerifC01Void", "VerifC01Mixed"], "params": {"N": 2}},
             {"pkg": "v2", "entries": ["VerifC01Keyed"], "params": {"N": 2, "M": 1}},
             {"pkg": "v2", "entries": ["VerifC01Nest"], "params": {"N": 2, "OPTS": 0x17}},
+            {"pkg": "v2", "entries": ["VerifC01Deep"], "params": {"DEPTH": 7}},
         ],
         "thorough": [
             {"pkg": "v2", "entries": ["VerifC01Flat"], "params": {"N": 3, "CLONE": 1}},
@@ -213,9 +222,10 @@ CHECKS = {
             {"pkg": "v2", "entries": ["VerifC01Keyed"], "params": {"N": 2, "M": 1}},
             {"pkg": "v2", "entries": ["VerifC01Keyed"], "params": {"N": 1, "M": 2}},
             {"pkg": "v2", "entries": ["VerifC01Nest"], "params": {"N": 2, "OPTS": 0x77, "WRAPS": 4}},
+            {"pkg": "v2", "entries": ["VerifC01Deep"], "params": {"DEPTH": 9, "CHAINKINDS": 2}},
         ],
         "covers": ["c01.flat.none", "c01.flat.set", "c01.flat.multiset", "c01.flat.merge", "c01.flat.set+merge", "c01.flat.multiset+merge",
-                   "c01.obj.none", "c01.obj.merge", "c01.keyed.setkeys", "c01.void.none", "c01.mixed.set", "c01.nest.none", "c01.nest.multiset"],
+                   "c01.obj.none", "c01.obj.merge", "c01.keyed.setkeys", "c01.void.none", "c01.mixed.set", "c01.nest.none", "c01.nest.multiset", "c01.deep.none"],
         "outside": "arrays longer than N, depth beyond the families, FNV collisions",
     },
 }
